@@ -79,4 +79,10 @@ PROPS = {
         quick=dict(runs=[dict(tests="^TestC06$", checks=120)], min_nontrivial=30),
         thorough=dict(runs=[dict(tests="^TestC06$", checks=500, shards=16, timeout=3000)], min_nontrivial=1500),
     ),
+    "C02": dict(
+        rule="histories of 1..8 (thorough 14) batches dominated by Endpoints churn (add / remove / replace address, ready<->notReady with drain-support, pod termination), with TLS secret rotation, ingress annotation changes, naming modes sequence/ip/pod, cookie affinity with and without preserve, blue/green weights, slots-min-free 0..6, slots increment 1..8, shards 0/3, endpoint sort orders; 35% of the batches carry a fault plan over the ordinal of the runtime command (connection refused, dropped before / after being applied, non-OK text). After every update that returned nil the state of the simulated HAProxy (per backend and slot: maint, addr:port, weight, drain; preserved cookies; crt-list and PEM per certificate file) must equal the state obtained by loading the files now on disk. Non-trivial = some step applied runtime commands without a reload; distinct by digest.",
+        assumptions=["simhap command semantics (set server addr/port/state/weight, set+commit ssl cert) are the trusted base", "cookie values are compared only for backends whose cookie line has `preserve`", "weight of a server in maintenance is not compared"],
+        quick=dict(runs=[dict(tests="^TestC02$", checks=250)], min_nontrivial=40),
+        thorough=dict(runs=[dict(tests="^TestC02$", checks=800, shards=16, timeout=3000)], min_nontrivial=2000),
+    ),
 }
